@@ -81,7 +81,7 @@ type ReaderHandler struct {
 	side *readerSide
 }
 
-// script: n>0 Read(n) once; 0 Close; -1 io.ReadAll; -2 pause 30ms; -(1000+m) loop Read(m) until an error
+// script: n>0 Read(n) once; 0 Close; -1 io.ReadAll; -2 pause 30ms; -3 a zero-length Read; -(1000+m) loop Read(m) until an error
 func (h *ReaderHandler) ReadScript(ctx context.Context, r io.Reader, script []int, tag int) (int, error) {
 	rr := &recReader{r: r, side: h.side, tag: tag}
 	total := 0
@@ -98,6 +98,9 @@ func (h *ReaderHandler) ReadScript(ctx context.Context, r io.Reader, script []in
 			} else {
 				h.side.add(tag, readObs{Op: "close", Err: "other:not a closer"})
 			}
+		case s == -3:
+			// len(p) == 0: allowed by the io.Reader contract (iotest.TestReader probes it, so does a full fixed buffer)
+			_, _ = rr.Read(nil)
 		case s == -2:
 			// let the uploading request finish first (it is released by the EOF / Close the handler just saw)
 			time.Sleep(30 * time.Millisecond)
@@ -319,7 +322,8 @@ func readerFamily(seed uint64, tier string, args []string) {
 
 	lens := []int{0, 1, 2, 511, 512, 513, 4095, 4096, 4097, 32767, 32768, 32769}
 	patterns := [][]int{
-		{-1}, {-1, 16, 16, 16}, {-1, -2, 16, 16}, {-1, 0}, {-1, 0, 16}, {0}, {7, 0}, {7, 0, 9, 0}, {100, 100}, {-1064}, {-5096, 1, 1}, {-1001}, {3, -1, 0, 0},
+		{-1}, {-1, 16, 16, 16}, {-1, -2, 16, 16}, {-1, 0}, {-1, 0, 16}, {0}, {7, 0}, {7, 0, 9, 0}, {100, 100}, {-1064}, {-5096, 1, 1},
+		{-3, -1}, {5, -3, -3, -1064, -3}, {-1001}, {3, -1, 0, 0},
 	}
 	orders := []string{"upload_first", "decode_first", "natural"}
 	// sequential sweep: every length x every pattern (byte-at-a-time only for small lengths)
